@@ -212,13 +212,21 @@ def r06_1(ctx: Ctx) -> None:
         names = [txt(c.func) for c in calls(func)]
         order = [n for n in names if n in wanted]
         ok = order == wanted
+        detail = ""
         if ok and guard:
+            same = {guard, f"bool({guard})", f"len({guard}) > 0", f"len({guard}) != 0", f"0 < len({guard})", f"len({guard}) >= 1"}
             for c in calls(func):
                 if txt(c.func) in ("self.clear_regions", "self.create_regions"):
-                    ok = ok and guard in fact_texts(cfg, c)
+                    facts = {txt(inline_reaching(cfg, e, e)) if t else f"not {txt(inline_reaching(cfg, e, e))}"
+                             for e, t in path_facts(cfg, c)}
+                    ok = ok and bool(facts & same)
+                    # ... and under nothing else: stale regions must not survive because of some other condition
+                    if facts - same:
+                        ok = False
+                        detail = f"`{txt(c)}` also requires {sorted(facts - same)}: when that fails the old regions keep members that were just removed"
         ctx.ob("R06.1", REC, func, qual, "call chain", ok,
                "clearing a family empties its list, then clears what depends on it and re-creates the regions "
-               "(only if regions existed)", form=" -> ".join(order))
+               "(exactly when regions existed)", detail=detail, form=" -> ".join(order))
     # Region.add_cds links the gene back
     func = ctx.fn(REGION, "Region.add_cds")
     ok = any(isinstance(n, ast.Assign) and txt(n.targets[0]) == "cds.region" and txt(n.value) == "self" for n in walk_local(func)) \
@@ -227,7 +235,23 @@ def r06_1(ctx: Ctx) -> None:
            "adding a gene to a region records the region on the gene", form="")
     # the parent setter refuses a parent that does not contain the child
     setter = [n for q, n in ctx.repo.functions(COLL) if q == "CDSCollection.parent" and n.args.args[-1].arg == "parent"]
-    ok = bool(setter) and "assert self.is_contained_by(parent)" in txt(setter[-1])
+    ok = False
+    if setter:
+        scfg = CFG(setter[-1])
+        stores = [n for n in walk_local(setter[-1]) if isinstance(n, ast.Assign) and txt(n.targets[0]) == "self._parent"]
+        demands = [n for n in walk_local(setter[-1]) if isinstance(n, ast.Assert) and "self.is_contained_by(parent)" in txt(n.test)
+                   and "not self.is_contained_by" not in txt(n.test)]
+        # every path that stores a real parent passes the containment demand (an assert, or a raise on its negation)
+        ok = bool(stores)
+        for store in stores:
+            by_fact = any(truth and txt(e) == "self.is_contained_by(parent)" for e, truth in path_facts(scfg, store))
+            none_edges = [(n.id, lab) for n in scfg.nodes if n.kind == "test" and n.ast is not None and hasattr(n.ast, "test")
+                          for lab, pol in (("T", True), ("F", False))
+                          if txt(n.ast.test) in ("parent is not None", "parent") and not pol
+                          or txt(n.ast.test) in ("parent is None", "not parent") and pol]
+            by_assert = bool(demands) and scfg.n(store) not in scfg.reach([scfg.entry], avoid=[scfg.n(d) for d in demands],
+                                                                           edges_excluded=none_edges)
+            ok = ok and (by_fact or by_assert)
     ctx.ob("R06.1", COLL, setter[-1] if setter else 0, "CDSCollection.parent", "parent contains child", ok,
            "a parent link can only be set to a collection containing the child", form="")
 
